@@ -284,7 +284,7 @@ pub fn main(ctx: &Ctx) -> i32 {
         };
         return replay(ctx, &body);
     }
-    let runs: u64 = ctx.tier.pick(32, 320);
+    let runs: u64 = ctx.tier.pick(48, 480);
     let res = crate::core::pool::run_jobs(runs, |idx| {
         let mut out = RunOut::default();
         one_run(ctx, idx, &mut out);
